@@ -85,6 +85,9 @@ def generate(ctx):
                 t = list(genome)
                 t[p - 1] = rng.choice([c for c in "ACGT" if c != t[p - 1]])
                 edge.append({"name": "edge%d" % k, "flag": 0, "pos": 0, "cigar": [("M", L)], "seq": "".join(t), "exact": True})
+        if rng.random() < 0.35:
+            # a query identical to the reference over its whole length, anywhere but first among the queries
+            edge.insert(rng.randint(0, len(edge)), {"name": "same%d" % cid, "flag": 0, "pos": 0, "cigar": [("M", L)], "seq": genome, "exact": True})
         # queries differ from the reference
         for r in recs:
             s = list(r["seq"])
